@@ -36,7 +36,7 @@ theorem C18_restore_immediate (s : State) (key k0 : String) (hk : s.credKey = so
 theorem C18_restore_waits (s : State) (key k0 : String) (hk : s.credKey = some k0) (hrt : s.rt = some .restoreReady) :
     handleRestore s key =
       { s with credKey := some key, renderer := .restore, rtFlag := true, restoreWaiting := true,
-               timers := s.timers ++ ["restoreHook"] } := by
+               timers := s.timers ++ [.restoreHook] } := by
   simp [handleRestore, hk, hrt]
 
 /-- the gate the restore waits on is walked only by the runtime's `next` (from `Started` or from
@@ -50,7 +50,7 @@ theorem C18_success_needs_next (st : RtState) (c : RtCall) (is : List (Instr RtS
 theorem C18_restore_success_iff (s : State) (hw : s.restoreWaiting = true) (hf : s.fatal = none) :
     (s.initFlow.runtimeReady.isOpen = false → restoreResume s = none) ∧
     (s.initFlow.runtimeReady.isOpen = true → s.initFlow.runtimeReady.canceled = false →
-        restoreResume s = some ((restoreDoneEvent { s with restoreWaiting := false, timers := s.timers.filter (· != "restoreHook") } true).emit
+        restoreResume s = some ((restoreDoneEvent { s with restoreWaiting := false, timers := s.timers.filter (· != Timer.restoreHook) } true).emit
           "restore done err=ok")) := by
   refine ⟨?_, ?_⟩
   · intro h; simp [restoreResume, hw, h]
@@ -58,10 +58,10 @@ theorem C18_restore_success_iff (s : State) (hw : s.restoreWaiting = true) (hf :
 
 /-- **Hook timeout**: the deadline ends the wait with Runtime.RestoreHookUserTimeout and cancels the
     init flow (so the parked runtime call cannot complete the init behind the platform's back). -/
-theorem C18_timeout (s : State) (hw : s.restoreWaiting = true) (ht : "restoreHook" ∈ s.timers) (hf : s.fatal = none) :
-    let s' := applyOp s (.timer "restoreHook")
+theorem C18_timeout (s : State) (hw : s.restoreWaiting = true) (ht : Timer.restoreHook ∈ s.timers) (hf : s.fatal = none) :
+    let s' := applyOp s (.timer .restoreHook)
     s'.restoreWaiting = false ∧ s'.initFlow.runtimeReady.canceled = true ∧
-    s'.out = s.out ++ ["ev restoreRuntimeDone:error:Runtime.Unknown", "restore done err=Runtime.RestoreHookUserTimeout"] := by
+    s'.out = s.out ++ [.line "ev restoreRuntimeDone:error:Runtime.Unknown", .line "restore done err=Runtime.RestoreHookUserTimeout"] := by
   simp [applyOp, ht, hw, restoreFinish, cancelInitFlow, Latch.cancel, hf, restoreDoneEvent, State.emit]
   exact ⟨by decide, by decide⟩
 
@@ -76,8 +76,8 @@ theorem C18_user_error (s : State) (et : String) (hrt : s.rt = some .restoring) 
 
 theorem C18_user_error_result (s : State) (hw : s.restoreWaiting = true) (hf : s.fatal = none)
     (hc : s.initFlow.runtimeReady.canceled = true) (he : s.initFlow.runtimeReady.err = some .restoreUser) :
-    ∃ s', restoreResume s = some s' ∧ s'.out = s.out ++ ["ev restoreRuntimeDone:error:Runtime.Unknown",
-      s!"restore done err={s!"userError:{s.restoreUserType}"}"] := by
+    ∃ s', restoreResume s = some s' ∧ s'.out = s.out ++ [.line "ev restoreRuntimeDone:error:Runtime.Unknown",
+      .line s!"restore done err={s!"userError:{s.restoreUserType}"}"] := by
   have ho : s.initFlow.runtimeReady.isOpen = true := by simp [Latch.isOpen, hc]
   refine ⟨_, by simp [restoreResume, hw, ho, hc, he]; rfl, ?_⟩
   simp [restoreFinish, hf, restoreDoneEvent, State.emit]
@@ -85,7 +85,7 @@ theorem C18_user_error_result (s : State) (hw : s.restoreWaiting = true) (hf : s
 
 /-- a recorded fatal error (e.g. the runtime exited) overrides whatever the wait returned -/
 theorem C18_first_fatal_overrides (s : State) (t : String) (e : Option String) (hf : s.fatal = some t) :
-    (restoreFinish s e).out = s.out ++ [s!"ev restoreRuntimeDone:error:{t}", s!"restore done err={t}"] := by
+    (restoreFinish s e).out = s.out ++ [.line s!"ev restoreRuntimeDone:error:{t}", .line s!"restore done err={t}"] := by
   simp [restoreFinish, hf, restoreDoneEvent, State.emit]
   decide
 
@@ -111,8 +111,8 @@ theorem C18_creds_latest (s : State) (key k0 : String) (hk : s.credKey = some k0
 example :
     let s0 : State := { snapshot := true }
     let s := [Op.init, .rtRestoreNext, .restore "K2", .rtNext].foldl (step 0) s0
-    s.out = ["ev restoreRuntimeDone:success:-", "restore done err=ok"] ∧
-    (step 0 s (.rtCreds "good")).out = ["rt.creds:good=200,key=K2"] ∧ (step 0 s (.rtCreds "x")).out = ["rt.creds:x=404"] := by
+    s.outs = ["ev restoreRuntimeDone:success:-", "restore done err=ok"] ∧
+    (step 0 s (.rtCreds "good")).outs = ["rt.creds:good=200,key=K2"] ∧ (step 0 s (.rtCreds "x")).outs = ["rt.creds:x=404"] := by
   decide
 
 end Rie.Props.C18
